@@ -1740,6 +1740,17 @@ def _exhaustive_c20():
         n += 1
         if sorted(x.value for x in notes) != sorted((tn + s) % 12 for s in scale) or notes[0].value != tn:
             v.append(f"{k}: note set is not the major scale on its tonic")
+        # accidental count against the circle of fifths (theorems C20_accidentals / C20_enharmonic_accidentals)
+        n += 1
+        try:
+            dc = CircleOfFifths.get_distance(0, tn)
+            if not (isinstance(acc, int) and 0 <= acc <= 7 and ((acc - dc) % 12 == 0 or (acc + dc) % 12 == 0)):
+                v.append(f"{k}: accidental count {acc!r} is not the circle-of-fifths distance {dc} from C to its tonic (mod 12, either direction)")
+            for k2 in Key:
+                if k2 is not k and TONIC[k2.name] == tn and acc + MusicMapping.KeyNoteMapping[k2][1] != 12:
+                    v.append(f"{k} and {k2} share a tonic but their accidental counts do not add up to 12")
+        except Exception as e:
+            v.append(f"{k}: accidental-count check raised {type(e).__name__}: {e}")
         for i in range(-30, 31):
             n += 1
             try:
